@@ -39,6 +39,8 @@ def teardown(ctx):
 
 def cases(tier, seed):
     out = pool.pool_cases(tier, seed, ['c01', 'c02', 'c07', 'c08', 'c13', 'c09'], 120 if tier == 'quick' else 800)
+    if tier == 'thorough':
+        out.insert(0, pool.ambient_case(PID))
     reps = 2 if tier == 'quick' else 12
     for rep in range(reps):
         for D in (1, 2, 4):
@@ -56,6 +58,12 @@ def cases(tier, seed):
 def run_case(ctx, case):
     if case['kind'] == 'pool':
         return pool.run_host(case)
+    if case['kind'] == 'ambient':
+        probe.S.suppress = True
+        try:
+            return pool.run_ambient(ctx, PID)
+        finally:
+            probe.S.suppress = False
     rng = gen.rng_of(case)
     if case['kind'] == 'structure':
         return _structure(ctx, case['params'], rng)
